@@ -6,6 +6,7 @@ import Glas.Model.SearchCmd
 import Glas.Model.ServerCmd
 import Glas.Model.ProjectCmd
 import Glas.Model.DbCmd
+import Glas.Model.ConcCmd
 /-! The executable model behind a one-line-in, one-line-out protocol (tab-separated fields). -/
 open Glas
 
@@ -34,7 +35,10 @@ def dispatch (line : String) : String :=
               | none =>
                 match DbCmd.run args with
                 | some r => r
-                | none => "bad-op"
+                | none =>
+                  match ConcCmd.run args with
+                  | some r => r
+                  | none => "bad-op"
 
 partial def loop (h : IO.FS.Stream) (out : IO.FS.Stream) : IO Unit := do
   let line ← h.getLine
